@@ -10,6 +10,9 @@ package text
 // Number formatting itself (strconv) is an uninterpreted function of its operands.
 
 import (
+	"math"
+	"strconv"
+
 	"capnproto.org/go/capnp/v3"
 	"capnproto.org/go/capnp/v3/internal/schema"
 	"capnproto.org/go/capnp/v3/schemas"
@@ -143,6 +146,58 @@ func (nf *nodeFinder) find() (schema.Node, error) {
 		return schema.Node{}, err
 	}
 	return nodes.At(0), nil
+}
+
+// the rendering equals the reference rendering (field names in code order, each value formatted from
+// the accessor value), on a fresh encoder and on one that rendered another value before
+func vReference(s capnp.Struct) []byte {
+	var out []byte
+	out = append(out, "(i = "...)
+	out = strconv.AppendInt(out, int64(int16(s.Uint16(0)^0xfffe)), 10)
+	out = append(out, ", u = "...)
+	out = strconv.AppendUint(out, uint64(s.Uint32(4)), 10)
+	out = append(out, ", f = "...)
+	out = strconv.AppendFloat(out, float64(math.Float32frombits(s.Uint32(8))), 'g', -1, 32)
+	if s.Bit(16) {
+		out = append(out, ", b = true"...)
+	} else {
+		out = append(out, ", b = false"...)
+	}
+	out = append(out, ", t = \"\")"...)
+	return out
+}
+
+func VH_C20_render_reference() {
+	reg := vSchema()
+	s, _, _ := vValue()
+	b := &vBuf{}
+	enc := NewEncoder(b)
+	enc.UseRegistry(reg)
+	if vNondetBool() {
+		// an encoder that rendered something before (the all-default struct)
+		_, seg, err := capnp.NewMessage(capnp.SingleSegment(nil))
+		vAssume(err == nil)
+		other, err := capnp.NewStruct(seg, capnp.ObjectSize{DataSize: 16, PointerCount: 1})
+		vAssume(err == nil)
+		vAssume(enc.Encode(vTypeID, other) == nil)
+		b.b = nil
+	}
+	err := enc.Encode(vTypeID, s)
+	vReach("rendered")
+	vAssert(err == nil, "C20.render.no-error")
+	want := vReference(s)
+	vAssert(len(b.b) == len(want), "C20.render.length-equals-reference")
+	if len(b.b) == len(want) {
+		// bytes: the fixed prefix, the first byte of the first token and the closing bytes (an
+		// arbitrary index into a concatenation of three tokens of symbolic length is beyond the solvers)
+		for j := 0; j < 6; j++ {
+			vAssert(b.b[j] == want[j], "C20.render.bytes-equal-reference")
+		}
+		n := len(want)
+		for j := 1; j <= 8; j++ {
+			vAssert(b.b[n-j] == want[n-j], "C20.render.bytes-equal-reference")
+		}
+	}
 }
 
 // the same value renders to the same bytes on a fresh and on a used encoder
